@@ -218,5 +218,5 @@ PROPS['C11'] = dict(
     min_nontrivial=8000,
     require_counters={'config/edgebreaker': 1000, 'config/kd-tree': 500, 'entries': 100000, 'sub_metadata': 20000, 'attribute_metadata': 10000, 'empty_names': 1000, 'depth/8': 300,
                       'encoder_refused/Failed to encode metadata./name>255/*': 500, 'encoder_refused/Failed to encode metadata./names<=255/empty-value': 500},
-    assumptions=[],
+    assumptions=['empty values are driven in the plain variant only (constructing them trips UBSan inside libstdc++ before any Draco coding starts)'],
 )
